@@ -8,7 +8,8 @@ Local Open Scope Z_scope.
 
 (* range and acceptance of the harness validators (C05.Model.vld_of) *)
 Definition dom_of (k : vkind) (x : Z) : bool :=
-  match k with VAll => true | VInt | VCInt => (0 <=? x) && (x <? 100) | VInc => (1 <=? x) && (x <? 91) end.
+  match k with VAll => true | VInt | VCInt => (0 <=? x) && (x <? 100) | VInc => (1 <=? x) && (x <? 91)
+  | VInst => (x =? 200) || (x =? 203) end.
 Definition acc_of (k : vkind) (x : Z) : bool := match vld_of k x with Some _ => true | None => false end.
 
 (* ---------- lists ---------- *)
